@@ -2958,30 +2958,36 @@ emit_member_table(arg_t *arg, asn1p_expr_t *expr, asn1c_ioc_table_and_objset_t *
 	OUT("},\n");
 	INDENT(-1);
 
-	if(!expr->constraints || (arg->flags & A1C_NO_CONSTRAINTS))
+	if(!expr->constraints)
 		return 0;
 
 	save_target = arg->target->target;
 	REDIR(OT_CODE);
 
-	if(expr->_anonymous_type && !strcmp(expr->Identifier, "Member"))
-		p = asn1c_type_name(arg, expr, TNF_SAFE);
-	else
-		p = MKID(expr);
-	OUT("static int\n");
-	OUT("memb_%s_constraint_%d(const asn_TYPE_descriptor_t *td, const void *sptr,\n", p, arg->expr->_type_unique_index);
-	INDENT(+1);
-	OUT("\t\tasn_app_constraint_failed_f *ctfailcb, void *app_key) {\n");
-	tmp_arg = *arg;
-	tmp_arg.expr = expr;
-	DEBUG("member constraint checking code for %s", p);
-	if(asn1c_emit_constraint_checking_code(&tmp_arg) == 1) {
-		OUT("return td->encoding_constraints.general_constraints"
-			"(td, sptr, ctfailcb, app_key);\n");
+	/*
+	 * -fno-constraints omits the checking code, not the OER and PER
+	 * constraints the member table refers to: these define the encoding.
+	 */
+	if(!(arg->flags & A1C_NO_CONSTRAINTS)) {
+		if(expr->_anonymous_type && !strcmp(expr->Identifier, "Member"))
+			p = asn1c_type_name(arg, expr, TNF_SAFE);
+		else
+			p = MKID(expr);
+		OUT("static int\n");
+		OUT("memb_%s_constraint_%d(const asn_TYPE_descriptor_t *td, const void *sptr,\n", p, arg->expr->_type_unique_index);
+		INDENT(+1);
+		OUT("\t\tasn_app_constraint_failed_f *ctfailcb, void *app_key) {\n");
+		tmp_arg = *arg;
+		tmp_arg.expr = expr;
+		DEBUG("member constraint checking code for %s", p);
+		if(asn1c_emit_constraint_checking_code(&tmp_arg) == 1) {
+			OUT("return td->encoding_constraints.general_constraints"
+				"(td, sptr, ctfailcb, app_key);\n");
+		}
+		INDENT(-1);
+		OUT("}\n");
+		OUT("\n");
 	}
-	INDENT(-1);
-	OUT("}\n");
-	OUT("\n");
 
 	if(emit_member_OER_constraints(arg, expr, "memb"))
 		return -1;
